@@ -47,6 +47,13 @@ def run(tier, seed):
                          "(the published self-test of Knuth's ranf_start/ranf_array that GKLS ships)",
                   func="iOpt/problems/GKLS_function/gkls_random.py::GKLSRandomGenerator",
                   model=None if ok else {"observed": res.get("knuth_value")})
+    ss = res.get("seed_sensitivity") or {"checked": 0, "failures": ["not evaluated"]}
+    chk.add_lemma("rng:seed-space-is-30-bits", "proved" if ss["checked"] and not ss["failures"] else "refuted", "native-evaluation", 0.0,
+                  clause="the generator state depends on every one of the low 30 bits of the seed and on no higher bit (published "
+                         "ranf_start: seed & 0x3fffffff); checked for the extreme seeds of dimensions 2 and 5, all 32 bit flips "
+                         "(%d initialisations)" % ss["checked"],
+                  func="iOpt/problems/GKLS_function/gkls_random.py::GKLSRandomGenerator.Initialize",
+                  model=None if not ss["failures"] else {"sites": ss["failures"]})
     ok2 = res.get("recorded_value") == RECORDED
     chk.add_lemma("repro:recorded-reference-value", "proved" if ok2 else "refuted", "native-evaluation", 0.0,
                   clause="GKLS(3,1) at (0.9, 0.5, 0.3) equals the repository's recorded reference value %r" % RECORDED,
